@@ -19,6 +19,7 @@ from harness.common import Raw, cq, cq_opt
 
 PID = "C07"
 PARALLEL = 12
+SHARD = 800      # cases per Coq file: every file elaborates the constant tables of the preamble once, and 16 files run at a time
 CASE_TYPE = "C07.Corr.tcase"
 RUNNER = "C07.Corr.run"
 FINDING_CLASSES = {2: "C07-F2"}
@@ -35,7 +36,19 @@ RULE = ("block sig: complete product receiver/request class(11: every class of r
         "four process time zones (TZ=JST-9, EST5, UTC0, a half-hour zone with DST; time.tzset() around the call).  block key: "
         "issuer entity(7) x signer(4) x KeyInfo(2) x only_use_keys_in_metadata(2) x validate_certificate(2) x cert-only(2) x "
         "content altered(2).  block wire: binding(8 incl. unknown, None) x transport encoding(5) x kind mismatch; block "
-        "schema: validity shapes x signed/unsigned.  block lives (a case = the life of a process, observed in a process of "
+        "schema: validity shapes x signed/unsigned.  block sigalg: SigAlg as RECEIVED (5 supported + 17 that name nothing "
+        "verifiable: DSA / ECDSA / RSA-MD5 / RSA-RIPEMD160 / RSA-PSS / HMAC identifiers, a digest and a c14n identifier, a "
+        "supported identifier in upper case / with blanks / fragment only / https, 'none', 'None', '0', '') x Signature value "
+        "(made with the sender's metadata key over exactly what is received | made under another SigAlg that was then "
+        "replaced | other key | other message | 256 octets of nothing | 'AAAA' | no base64 | '') x entry point that takes a "
+        "detached signature(3; complete for AuthnRequest at the IdP) x requirement (True; certificate-only; spelled as a text "
+        "and loaded with the whole configuration; not required) x RelayState present / absent.  block instant: how "
+        "IssueInstant is WRITTEN: zone designator(23: Z, none, z, +-00:00, +-01:00, +05:30, -03:30, +-13:59, +-14:00, beyond "
+        "14:00 up to +-99:00, minutes 60, no colon, hours only, 'UTC', offset followed by Z) x instants placed so that the "
+        "INSTANT and the WRITTEN date and time fall on the same / on different sides of either window edge (instant now, on / "
+        "next to either edge, 36 h off; written time on / next to either edge) x skew(2), with receiver / class(11), binding, "
+        "requirement (signed as required), fraction of a second (none, digits, a bare '.') and process time zone rotating; "
+        "zone spellings also in 20 % of the random requests.  block lives (a case = the life of a process, observed in a process of "
         "its own): metadata generations G0..G6 (requester's key rolled over / both keys in either order / signing key "
         "withdrawn / entity removed / old key given to another entity); (1) roll-over on one long-lived receiver, for every "
         "signature path(8) x generation pair: probe every signer(3), reload (Entity.reload_metadata | MetadataStore.reload), "
@@ -291,8 +304,14 @@ ASSUMPTIONS = ["an option value SAYS yes when it is True, a number other than 0,
                "(the vocabulary of client_base.py since 6bdc97cd); a text that says neither demands nothing (C07/Spec.v: "
                "says_yes, says_no, spec_src); only ASCII spellings are generated",
                "ideal signatures (hypotheses everify_spec / dverify_spec of C07/Proofs.v); real RSA runs in the correspondence",
-               "IssueInstant is an xs:dateTime in UTC ('Z', optional fraction); other zone designators are rejected by "
-               "valid_instance and appear only as the inst_ok=false shape",
+               "IssueInstant: the instant the text DENOTES is what the window clause is about (C07/Spec.v: denoted): the written "
+               "date and time minus the written offset; 'Z' (RFC 3339: or 'z') and no designator are UTC (SAML core 1.3.3); an "
+               "offset beyond +-14:00 and a text that is no zone designator denote no instant, and such a request must not be "
+               "processed.  The model takes the written fields for UTC and refuses every spelling with an offset "
+               "(Model.zone_read); harness/c07.py:ZONES says which spelling is which zone term and whether it passes the "
+               "XML-schema validation of a signed message; a fraction of a second is dropped",
+               "a detached signature is valid only under a SigAlg that names a signature algorithm the receiver can verify "
+               "(C07/Spec.v: SIG_ALGS, the five RSA PKCS#1 v1.5 identifiers, exact text); every fixture key is an RSA key",
                "xsd_ok / inst_ok (outcome of the XML-schema validation of the re-serialised element and of valid_instance) are "
                "inputs of the model; the harness supplies them from the shape it rendered",
                "single metadata source; which certificates metadata yields for an issuer is property C03",
@@ -315,6 +334,17 @@ SHA256 = "http://www.w3.org/2001/04/xmldsig-more#rsa-sha256"
 SHA384 = "http://www.w3.org/2001/04/xmldsig-more#rsa-sha384"
 SHA512 = "http://www.w3.org/2001/04/xmldsig-more#rsa-sha512"
 DSA = "http://www.w3.org/2000/09/xmldsig#dsa-sha1"
+SUPPORTED_ALGS = [SHA1, SHA224, SHA256, SHA384, SHA512]
+# SigAlg values that name nothing the receiver can verify a detached signature with: other algorithm families, RSA with
+# a digest / padding outside sigver.SIGNER_ALGS, XML-signature identifiers that are no signature algorithm, misspellings
+# of a supported identifier (case, blanks, fragment only, the digest identifier), no identifier at all
+UNSUPPORTED_ALGS = [
+    DSA, "http://www.w3.org/2001/04/xmldsig-more#ecdsa-sha256", "http://www.w3.org/2001/04/xmldsig-more#rsa-md5",
+    "http://www.w3.org/2001/04/xmldsig-more#rsa-ripemd160", "http://www.w3.org/2007/05/xmldsig-more#sha256-rsa-MGF1",
+    "http://www.w3.org/2000/09/xmldsig#hmac-sha1", "http://www.w3.org/2001/04/xmlenc#sha256",
+    "http://www.w3.org/2001/10/xml-exc-c14n#", SHA256.upper(), SHA256 + " ", " " + SHA1, "rsa-sha256",
+    SHA256.replace("http:", "https:"), "none", "None", "", "0",
+]
 
 KEYNUM = {"sp": 1, "attacker": 2, "other": 3, "idp2": 4}
 E1, E2, E3, E4 = ("https://peer1.example.org/ent.xml", "https://peer2.example.org/ent.xml",
@@ -660,14 +690,53 @@ def detached(keyname, enc, rs, sa):
     return _det[memo]
 
 
+# How the time zone of IssueInstant is WRITTEN (xs:dateTime: 'Z', nothing, '+hh:mm' / '-hh:mm' up to 14:00):
+# text -> (minutes east of UTC by which the written date and time are ahead of the instant, C07.Model.zone term, does
+# the text pass the XML-schema validation of a signed message).  The instant of a case is NOW + offset whatever the zone:
+# the date and time fields are written as that instant's local time in the zone.
+def _zoff(m):
+    return "(ZOff (%d)%%Z)" % m
+
+
+ZONES = {
+    "Z": (0, "ZUtc", True), "": (0, "ZNone", True),
+    "+00:00": (0, _zoff(0), True), "-00:00": (0, _zoff(0), True),
+    "+01:00": (60, _zoff(60), True), "-01:00": (-60, _zoff(-60), True),
+    "+05:30": (330, _zoff(330), True), "-03:30": (-210, _zoff(-210), True),
+    "+13:59": (839, _zoff(839), True), "-13:59": (-839, _zoff(-839), True),
+    "+14:00": (840, _zoff(840), True), "-14:00": (-840, _zoff(-840), True),
+    # no xs:dateTime: an offset beyond 14:00, minutes beyond 59, no colon, hours only, lower case, a zone name
+    "+14:01": (841, _zoff(841), False), "-14:30": (-870, _zoff(-870), False), "+24:00": (1440, _zoff(1440), False),
+    "+99:00": (5940, _zoff(5940), False), "-99:00": (-5940, _zoff(-5940), False),
+    "+05:60": (360, "ZBad", False), "+0100": (60, "ZBad", False), "-01": (-60, "ZBad", False),
+    "UTC": (0, "ZBad", False), "+01:00Z": (60, "ZBad", False),
+    # lower case: no xs:dateTime (the schema validation of a signed message refuses it) but UTC all the same (RFC 3339
+    # 5.6: 'Z' may be lower case); strptime matches the literal of the format without regard to case
+    "z": (0, "ZUtc", False),
+}
+ZONES_LEGAL = [z for z, t in ZONES.items() if t[2]]
+
+
+def zone_of(case):
+    if case["schema"] == "tz":
+        return "+00:00"
+    return case.get("zone", "Z")
+
+
+def written_time(case):
+    """the date and time fields of IssueInstant as written, read as UTC (epoch seconds)"""
+    return NOW + case["offset"] + 60 * ZONES[zone_of(case)][0]
+
+
 def issue_instant(case):
-    sch = case["schema"]
-    t = NOW + case["offset"]
-    if sch == "tz":
-        return env.iso(t)[:-1] + "+00:00"
-    if sch == "garbage":
+    if case["schema"] == "garbage":
         return "yesterday"
-    return env.iso(t, case.get("frac"))
+    import time
+
+    text = time.strftime("%Y-%m-%dT%H:%M:%S", time.gmtime(written_time(case)))
+    if case.get("frac") is not None:          # "" = a bare '.', which the pattern of str_to_time lets through
+        text += "." + case["frac"]
+    return text + zone_of(case)
 
 
 def elem(kind):
@@ -821,15 +890,18 @@ def wire_form(case):
     kw = {}
     if d:
         signed_doc = enc if not d["otherdoc"] else encode(render_xml(case, tweak=True), wire)
-        if d["signer"] == "garbage":
-            sg = "!!not base64!!"
-        elif d["signer"] == "garbage2":
-            sg = base64.b64encode(b"\x01" * 256).decode()
+        if d["signer"] in NOT_A_SIGNATURE:
+            sg = NOT_A_SIGNATURE[d["signer"]]
         else:
             sg = detached(d["signer"], signed_doc, d["rs_signed"], d["sa_signed"])
         if case["kind"] in PASSES_DETACHED:
             kw = {"relay_state": d["rs"], "sigalg": d["sa"], "signature": sg if d["pass_sig"] else None}
     return enc, kw
+
+
+# Signature values that nobody's key made: no base64 at all, well-formed base64 of the right length, a few octets, nothing
+NOT_A_SIGNATURE = {"garbage": "!!not base64!!", "garbage2": base64.b64encode(b"\x01" * 256).decode(), "short": "AAAA",
+                   "empty": ""}
 
 
 def observe_request(rcv, case, wire=None):
@@ -1002,14 +1074,26 @@ def observe(case):
 # ---------------------------------------------------------------------------- abstraction -> Coq
 def abstract_xsd_inst(case):
     sch = case["schema"]
-    xsd = sch not in ("extra", "garbage")
-    inst = sch not in ("tz", "garbage")
+    # a bare '.' after the seconds is no xs:dateTime either (str_to_time lets it through)
+    xsd = sch not in ("extra", "garbage") and ZONES[zone_of(case)][2] and case.get("frac") != ""
+    inst = sch != "garbage"          # the zone of IssueInstant is a field of its own (Model.zone_read)
     return xsd, inst
+
+
+def coq_zone(case):
+    if case["schema"] == "garbage":
+        return "ZBad"
+    if zone_of(case) == "z" and case.get("frac") is not None:
+        # strptime reads 'z' for the 'Z' of its format; after a fraction only the pattern of str_to_time applies, and
+        # that wants the capital: refused.  Classified with the spellings that are no zone designator (fail-closed).
+        return "ZBad"
+    return ZONES[zone_of(case)][1]
 
 
 BINDING_CONST = {REDIRECT: "BINDING_HTTP_REDIRECT", POST: "BINDING_HTTP_POST", SOAP: "BINDING_SOAP", URI: "BINDING_URI",
                  ARTIFACT: "BINDING_HTTP_ARTIFACT"}
-ALG_CONST = {SHA1: "c07_sha1", SHA256: "c07_sha256", DSA: "c07_dsa"}
+ALG_CONST = {SHA1: "c07_sha1", SHA256: "c07_sha256", DSA: "c07_dsa", SHA224: "c07_sha224", SHA384: "c07_sha384",
+             SHA512: "c07_sha512"}
 
 
 def cqb(b):
@@ -1125,7 +1209,7 @@ def coq_request(case, obs, mdterm):
         rs, sa = cqs_opt(d["rs"]), opt(cqa(d["sa"]) if d["sa"] is not None else None)
         if not d["pass_sig"]:
             sg = "None"
-        elif d["signer"] in ("garbage", "garbage2"):
+        elif d["signer"] in NOT_A_SIGNATURE:
             sg = "(Some None)"
         else:
             sg = "(Some (Some (%s, %s, %s, %s)))" % (nat(KEYNUM[d["signer"]]), cq(bool(d["otherdoc"])), cqs_opt(d["rs_signed"]),
@@ -1133,12 +1217,13 @@ def coq_request(case, obs, mdterm):
     wire = {"deflate": "WDeflate", "base64": "WBase64", "soap": "WSoap", "xml": "WXml", "notb64": "WNotB64"}[
         case["wire"] or proper_wire(case["binding"])]
     issuer = ISSUERS[case["issuer"]]
-    return "C07.Corr.mk %s %s %s %s %s %s %s %s %s %s %s %s %s %s %s %s %s %s %s %s %s %s %s" % (
+    return "C07.Corr.mk %s %s %s %s %s %s %s %s %s %s %s %s %s %s %s %s %s %s %s %s %s %s %s %s" % (
         cqs(case["rcv"]), epl_name(case["rcv"], case["kind"], case["epcfg"]),
         "%s %s %s %s" % (cq_cval(case["must"]), cq_cval(case["ovc"]), cq_got(obs["got"][0]), cq_got(obs["got"][1])),
         cq_opt(case["slack"]), cq(bool(case["only_md"])), mdterm, valid, "c07_now", case["kind"],
         opt(cqb(case["binding"]) if case["binding"] is not None else None), wire, case["actual"] or case["kind"],
-        cqs(case["version"]), cqs_opt(dest_value(case)), "c07_now" if case["offset"] == 0 else cq(NOW + case["offset"]),
+        cqs(case["version"]), cqs_opt(dest_value(case)),
+        "c07_now" if written_time(case) == NOW else cq(written_time(case)), coq_zone(case),
         cqs_opt(issuer if issuer else None),
         cq(xsd), cq(inst), envs, rs, sa, sg, nat(obs["code"]))
 
@@ -1214,6 +1299,12 @@ def det_state(name, issuer):
         "addrelay": {"rs_signed": None, "rs": ""},
         "altsigalg": {"sa": SHA1},
         "unsupported": {"sa_signed": DSA, "sa": DSA},
+        # ... a SigAlg the receiver has no verifier for, with a signature that was made under another SigAlg / by nobody
+        "unsupported_alt": {"sa": DSA},
+        "unsupported_forged": {"sa": "http://www.w3.org/2001/04/xmldsig-more#ecdsa-sha256", "signer": "short"},
+        "noalg_forged": {"sa": "", "signer": "garbage2"},
+        "noalg_alt": {"sa": "none"},
+        "emptysig": {"signer": "empty"},
         "garbage": {"signer": "garbage"},
         "garbage2": {"signer": "garbage2"},
         "otherkey": {"signer": "idp2"},
@@ -1231,6 +1322,8 @@ def det_state(name, issuer):
 DETS = ["absent", "valid", "valid_norelay", "valid_sha1", "altmsg", "altrelay", "droprelay", "addrelay", "altsigalg",
         "unsupported", "garbage", "garbage2", "otherkey", "otherent", "nosig", "nosigalg"]
 DETS_SHORT = ["absent", "valid", "garbage"]
+# further named states for the seeded random requests and walks (not part of the complete products over DETS)
+DETS_RANDOM = DETS + ["unsupported_alt", "unsupported_forged", "noalg_forged", "noalg_alt", "emptysig"]
 REQS = [(None, None), (False, None), (True, None), (None, True)]      # (want_authn_requests_signed, only_valid_cert)
 VERSIONS = ["2.0", "1.1", "2.1", "2", "2.0 ", "", "1.0"]
 SLACKS = [None, 0, 180, -60]
@@ -1246,7 +1339,7 @@ def base(rng=None, **over):
     c = {"rcv": "idp", "kind": "AuthnRequest", "actual": None, "binding": POST, "wire": None, "must": None, "ovc": None,
          "vcert": False, "only_md": True, "slack": None, "epcfg": "default", "issuer": "E1", "env": None, "det": None,
          "envname": "absent", "detname": "absent", "dest": "primary", "version": "2.0", "offset": 0, "frac": None,
-         "schema": "ok", "tz": None, "how": "special", "tag": "base"}
+         "schema": "ok", "zone": "Z", "tz": None, "how": "special", "tag": "base"}
     c.update(over)
     return c
 
@@ -1371,6 +1464,91 @@ def gen_spellings(rng, thorough):
     return out
 
 
+# what the Signature parameter is, relative to the SigAlg that is received
+SIG_VALUES = ["own", "altered", "otherkey", "altmsg", "garbage2", "short", "garbage", "empty"]
+
+
+def sigalg_case(rk, req, sa, value, rs="rs-1", how="special"):
+    """a Redirect request of E1 whose SigAlg parameter is `sa` and whose Signature is: made with E1's metadata key over
+    exactly what is received (own; the digest is the one `sa` names, SHA-256 when it names none), made under another
+    SigAlg which was then replaced by `sa` (altered), made with a key that is not E1's / over another message, or a
+    value nobody's key made (NOT_A_SIGNATURE)"""
+    c = base(rcv=rk[0], kind=rk[1], binding=REDIRECT, must=req[0], ovc=req[1], how=how, tag="sigalg",
+             detname="alg-%s-%s" % (value, "supported" if sa in SUPPORTED_ALGS else "unsupported"))
+    d = det_state("valid", "E1")
+    d.update(sa=sa, sa_signed=sa, rs=rs, rs_signed=rs)
+    if value == "altered":
+        d["sa_signed"] = SHA256 if sa != SHA256 else SHA1
+    elif value == "otherkey":
+        d["signer"] = "idp2"
+    elif value == "altmsg":
+        d["otherdoc"] = True
+    elif value != "own":
+        d["signer"] = value
+    c["det"] = d
+    return c
+
+
+def gen_sigalg(rng, thorough):
+    """SigAlg as RECEIVED (the five supported identifiers + UNSUPPORTED_ALGS) x the Signature value (SIG_VALUES) x entry
+    point that takes a detached signature x requirement (incl. certificate-only, spelled as a text and loaded with the
+    whole configuration, not required at all) x RelayState present / absent"""
+    out = []
+    algs = SUPPORTED_ALGS + UNSUPPORTED_ALGS
+    paths = [("idp", "AuthnRequest"), ("idp", "LogoutRequest"), ("sp", "LogoutRequest")]
+    for i, rk in enumerate(paths):
+        for sa in algs:
+            for v in SIG_VALUES:
+                if thorough or i == 0 or v in ("own", "altered") or (v == "short" and sa in UNSUPPORTED_ALGS):
+                    out.append(sigalg_case(rk, (True, None), sa, v))
+    for rk in (paths if thorough else paths[:1]):
+        for sa in algs:
+            for v in (SIG_VALUES if thorough else ("own", "short")):
+                out.append(sigalg_case(rk, (None, True), sa, v))
+            if sa in UNSUPPORTED_ALGS:
+                out.append(sigalg_case(rk, (True, None), sa, "own", rs=None))
+                out.append(sigalg_case(rk, (rng.choice(["True", "yes", 1, " on "]), None), sa, rng.choice(["short", "altered"]),
+                                       how=rng.choice(HOWS[1:])))
+        for sa in (algs if thorough else [SHA256, DSA, ""]):
+            for req in ((None, None), (False, None)):
+                for v in ("own", "short"):
+                    out.append(sigalg_case(rk, req, sa, v))
+    return out
+
+
+def instant_case(rng, n, slack, zone, off, tag="instant"):
+    """a request, valid and signed as its receiver requires, issued at NOW + off with IssueInstant written in `zone`;
+    receiver / request class, binding, requirement, fraction of a second and process time zone rotate"""
+    rk = RK[n % len(RK)]
+    b = [POST, REDIRECT, SOAP][(n // 2) % 3]
+    req = REQS[(n // 3) % len(REQS)]
+    if b == REDIRECT and rk[1] not in PASSES_DETACHED and req != (None, None) and req != (False, None):
+        b = POST        # the query entry points take no detached signature: nothing is processed there anyway
+    c = base(rcv=rk[0], kind=rk[1], binding=b, slack=slack, offset=off, zone=zone, must=req[0], ovc=req[1], tag=tag,
+             frac=[None, None, "0", "999999", None, "5", ""][n % 7], tz=TZS[n % 9] if n % 9 < len(TZS) else None)
+    return signed_as_required(c)
+
+
+def gen_instants(rng, thorough):
+    """How IssueInstant is WRITTEN: every zone spelling of ZONES x instants chosen so that the INSTANT and the WRITTEN
+    date and time fall on different sides of the window in every combination: the instant now / just outside either
+    edge / on either edge / a day and a half off, and the written time on / next to either edge"""
+    out = []
+    n = 0
+    for slack in (SLACKS if thorough else [None, 180]):
+        w = 86400 + (slack or 0)
+        for zone in ZONES:
+            sh = 60 * ZONES[zone][0]
+            if thorough or slack is None:
+                offs = [0, w + 1, -(w + 1), w, -w, w - 1, 129600, -129600, -w - sh, -(w + 1) - sh, w - sh, (w - 1) - sh]
+            else:
+                offs = [w + 1, -(w + 1), -w - sh, (w - 1) - sh]
+            for off in sorted(set(offs)):
+                n += 1
+                out.append(instant_case(rng, n, slack, zone, off))
+    return out
+
+
 def generate(ctx):
     rng = ctx.rng
     cases = []
@@ -1409,6 +1587,10 @@ def generate(ctx):
                         cases.append(c)
         for t in rng.sample(full, 300):
             cases.append(sig_case(rng, *t, tag="sig"))
+    # ---- block sigalg: the SigAlg parameter as received x what the Signature parameter is
+    cases.extend(gen_sigalg(rng, ctx.thorough))
+    # ---- block instant: how IssueInstant is written (zone designator, fraction) x where instant and written time fall
+    cases.extend(gen_instants(rng, ctx.thorough))
     # ---- block addr: endpoint configuration x Destination x binding ; Version x IssueInstant x skew
     for rk in (RK if ctx.thorough else [RK[0], RK[2], RK[5], RK[7]]):
         for epcfg in EPCFGS:
@@ -1494,8 +1676,11 @@ def generate(ctx):
     for _ in range(12000 if ctx.thorough else 300):
         rk = rng.choice(RK)
         req = rng.choice(REQS)
-        c = sig_case(rng, rk, req, rng.choice([REDIRECT, POST, SOAP]), rng.choice(ENVS), rng.choice(DETS), "random")
+        c = sig_case(rng, rk, req, rng.choice([REDIRECT, POST, SOAP]), rng.choice(ENVS), rng.choice(DETS_RANDOM), "random")
         fill_mostly_valid(c, rng, p=0.5)
+        if rng.random() < 0.2:
+            c["zone"] = rng.choice(sorted(ZONES))
+            c["frac"] = rng.choice([None, "0", "25", ""])
         c["vcert"] = rng.random() < 0.2
         c["tz"] = rng.choice(TZS) if rng.random() < 0.3 else None
         if rng.random() < 0.4:      # any spelling of either option, any way of loading
@@ -1635,8 +1820,10 @@ def gen_lives(rng, thorough):
                                                              tz=rng.choice(TZS) if rng.random() < 0.3 else None)})
             else:
                 rk = rng.choice([k for k in RK if k[0] == rcvs[r]["rcv"]])
-                c = sig_case(rng, rk, rng.choice(REQS), rng.choice([REDIRECT, POST, SOAP]), rng.choice(ENVS), rng.choice(DETS),
-                             "walk")
+                c = sig_case(rng, rk, rng.choice(REQS), rng.choice([REDIRECT, POST, SOAP]), rng.choice(ENVS),
+                             rng.choice(DETS_RANDOM), "walk")
+                if rng.random() < 0.15:
+                    c["zone"] = rng.choice(sorted(ZONES))
                 c["only_md"], c["vcert"] = rcvs[r]["only_md"], False
                 c["tz"] = rng.choice(TZS) if rng.random() < 0.3 else None
                 ops.append({"op": "req", "r": r, "c": c})
@@ -1715,17 +1902,19 @@ def nontrivial(case, obs):
     key = (repr(case["must"]), repr(case["ovc"]), case.get("how", "special"),
            case["rcv"], case["kind"], str(case["binding"]), req, case["envname"], case["detname"], case["dest"],
            case["epcfg"], case["version"], offset_class(case), case["schema"], case["wire"], case["actual"], obs["verdict"],
-           case.get("tz"), (case["env"] or {}).get("signer"), (case["det"] or {}).get("signer"))
+           case.get("tz"), (case["env"] or {}).get("signer"), (case["det"] or {}).get("signer"),
+           (case["det"] or {}).get("sa"), zone_of(case), case.get("frac"))
     trivial = (req == "optional" and case["envname"] == "absent" and case["detname"] == "absent" and case["dest"] == "primary"
                and case["version"] == "2.0" and case["offset"] == 0 and case["schema"] == "ok" and not case["wire"]
-               and not case["actual"] and case["epcfg"] == "default")
+               and not case["actual"] and case["epcfg"] == "default" and zone_of(case) == "Z")
     return None if trivial else key
 
 
 def histogram(cases, observed):
     h = {"by_tag": {}, "verdict": {}, "kind": {}, "binding": {}, "requirement": {}, "enveloped": {}, "detached": {},
          "destination": {}, "version": {}, "offset": {}, "epcfg": {}, "issuer": {}, "unexpected_exceptions": {},
-         "time_zone": {}, "requirement_reads": {}, "loaded_by": {}, "lives": {"lives": 0, "requests": 0, "reloads": 0, "reloads_refused": 0, "failed_reloads": 0,
+         "time_zone": {}, "issue_instant_zone": {}, "issue_instant_vs_written": {}, "sigalg_received": {},
+         "signature_value": {}, "requirement_reads": {}, "loaded_by": {}, "lives": {"lives": 0, "requests": 0, "reloads": 0, "reloads_refused": 0, "failed_reloads": 0,
                                     "receivers_per_life": {}, "ops_per_life": {}, "accepted_after_a_reload": 0,
                                     "rejected_after_a_reload": 0}}
 
@@ -1758,6 +1947,14 @@ def histogram(cases, observed):
                 L["failed_reloads"] += 1
     for c, o in flat:
         inc(h["time_zone"], c.get("tz"))
+        inc(h["issue_instant_zone"], zone_of(c) or "(none)")
+        if zone_of(c) != "Z":
+            inc(h["issue_instant_vs_written"], "instant %s / written %s" % (
+                offset_class(c), offset_class(dict(c, offset=written_time(c) - NOW))))
+        if c["det"]:
+            inc(h["sigalg_received"], "(absent)" if c["det"]["sa"] is None else (c["det"]["sa"] or "(empty)"))
+            inc(h["signature_value"], c["det"]["signer"] if c["det"]["signer"] in NOT_A_SIGNATURE else
+                ("key, SigAlg replaced" if c["det"]["sa"] != c["det"]["sa_signed"] else "key"))
         inc(h["by_tag"], c["tag"])
         inc(h["verdict"], o["verdict"])
         inc(h["kind"], c["rcv"] + ":" + c["kind"])
